@@ -35,6 +35,10 @@ KEY_GROUPS = [
 
 
 def key_of(name, reason, form=None):
+    if "gather/scatter without a mask register" in reason:
+        return "evex-gather-scatter-without-mask"
+    if "{z} with a memory destination" in reason:
+        return "evex-z-memory-destination"
     if form and ("address-size prefix 67" in reason or "segment prefixes" in reason) and \
             any(o.get("implicit") and o.get("mem") and not o.get("reg") for o in form.get("operands", [])):
         return "implicit-mem-override-dropped"
